@@ -9,6 +9,7 @@ package main
 // carry no state. "B is error-gated by A" = B carries no state of A's error.
 
 import (
+	"go/constant"
 	"fmt"
 	"go/ast"
 	"go/token"
@@ -625,6 +626,11 @@ func worldsFor(info *types.Info, cond ast.Expr, E types.Object, state string) []
 // In every world E is non-nil (the nil case carries no obligation). Atoms not about E are unknown.
 func eval3(info *types.Info, e ast.Expr, E types.Object, w string) (mayTrue, mayFalse bool) {
 	e = ast.Unparen(e)
+	// a constant (the flag of a row of an unrolled table: true && errors.Is(err, X))
+	if tv, ok := info.Types[e]; ok && tv.Value != nil && tv.Value.Kind() == constant.Bool {
+		b := constant.BoolVal(tv.Value)
+		return b, !b
+	}
 	switch x := e.(type) {
 	case *ast.UnaryExpr:
 		if x.Op == token.NOT {
